@@ -15,9 +15,13 @@ Corner == {0, 1, 19, 20, 21, 32, 40}
 Bindings == {"ownKey", "copied", "random"}     \* SHA-1 of the certificate's own key / the SKI of another device / arbitrary bytes
 TlsVersions == {10, 11, 12, 13}
 SubProtos == {"none", "ship", "other", "otherShip"}
-Inbound == { [dir |-> "in", cert |-> c, skiLen |-> l, binding |-> b, tls |-> t, sub |-> s] :
-               c \in BOOLEAN, l \in SkiLens, b \in Bindings, t \in TlsVersions, s \in SubProtos }
-ValidIn(r) == (~r.cert => (r.skiLen = 0 /\ r.binding = "ownKey"))
+\* what follows the leaf in the certificate chain the client sends: nothing, or the (public) certificate of another device -
+\* only the leaf's key is proven in the TLS handshake, so only the leaf may decide
+Chains == {"leaf", "plusVictim"}
+Inbound == { [dir |-> "in", cert |-> c, skiLen |-> l, binding |-> b, tls |-> t, sub |-> s, chain |-> ch] :
+               c \in BOOLEAN, l \in SkiLens, b \in Bindings, t \in TlsVersions, s \in SubProtos, ch \in Chains }
+ValidIn(r) == (~r.cert => (r.skiLen = 0 /\ r.binding = "ownKey" /\ r.chain = "leaf"))
+              /\ (r.chain = "plusVictim" => ((FullLens \/ r.skiLen \in Corner) /\ r.tls >= 12 /\ r.sub = "ship"))
               /\ (r.skiLen = 0 => r.binding = "ownKey")
               /\ ((~FullLens /\ r.skiLen \notin Corner) => (r.binding = "ownKey" /\ r.tls >= 12 /\ r.sub = "ship"))
 \* the requirement
@@ -38,7 +42,7 @@ Judge(r, res) ==
     CASE r.dir = "in" ->
            (IF ~AcceptIn(r) /\ (res.accepted \/ res.shipSeen)
             THEN {<<"C02", "inbound-not-refused", IF r.cert /\ r.skiLen = 20 /\ r.binding # "ownKey" /\ r.tls >= 12 /\ r.sub \in {"ship", "otherShip"}
-                                                  THEN "ski-not-bound-to-key" ELSE "gate", r.skiLen, r.binding, r.tls, r.sub>>} ELSE {})
+                                                  THEN "ski-not-bound-to-key" ELSE "gate", r.skiLen, r.binding, r.tls, r.sub, r.chain>>} ELSE {})
            \cup (IF AcceptIn(r) /\ ~res.shipSeen THEN {<<"C02", "genuine-peer-refused", r.tls, r.sub>>} ELSE {})
            \cup (IF AcceptIn(r) /\ res.shipSeen /\ res.attributed # res.certSki THEN {<<"C02", "attributed-to-wrong-ski">>} ELSE {})
       [] r.dir = "out" ->
